@@ -127,6 +127,13 @@ def ops : List (String × Handler) := [
       pure (ofParsed (parseYaml (← fld j "prefix" jStr) (← fld j "entries" (jList jYamlEntry))))),
   ("parse_list", fun j => do
       pure (ofParsed (parseList (← fld j "prefix" jStr) (← fld j "lines" (jList jListLine))))),
+  ("parse_yaml_rule", fun j => do
+      pure (ofParsed (parseYamlR (← fld j "recheck" jBool) (← fld j "prefix" jStr) (← fld j "entries" (jList jYamlEntry))))),
+  ("parse_list_rule", fun j => do
+      pure (ofParsed (parseListR (← fld j "recheck" jBool) (← fld j "prefix" jStr) (← fld j "lines" (jList jListLine))))),
+  ("name_rule_of_source", fun _ => do
+      pure (Json.mkObj [("yaml_rechecks_generated_name", ofBool renameRuleOfSource.yaml),
+                        ("list_rechecks_generated_name", ofBool renameRuleOfSource.list)])),
   ("wiring_of_source", fun _ => do
       let w := wiringOfSource
       pure (Json.mkObj [("reset_detected", ofBool w.resetDetectedPerTask), ("mono_intronic_from_preset", ofBool w.monoIntronicFromPreset),
